@@ -85,8 +85,16 @@ impl Visit for NoUndefVisitor<'_, '_> {
   }
 
   fn visit_unary_expr(&mut self, e: &UnaryExpr) {
+    // `typeof a` is a safe way to test whether `a` exists; any other operand
+    // is checked like the rest of the program.
     if e.op == UnaryOp::TypeOf {
-      return;
+      let mut arg = &*e.arg;
+      while let Expr::Paren(paren) = arg {
+        arg = &*paren.expr;
+      }
+      if arg.is_ident() {
+        return;
+      }
     }
 
     e.visit_children_with(self);
